@@ -73,6 +73,9 @@ def expected_violations(table, assignment):
     return sorted(out)
 
 
+_EARLIER = (emlkit.ValidationError.UNKNOWN_NODE, "entry left by an earlier validation", emlkit.Node("verifEarlier"))
+
+
 def observe(rule_name, element, kids, assignment):
     """-> (failfast outcome, collecting outcome)"""
     res = []
@@ -80,8 +83,13 @@ def observe(rule_name, element, kids, assignment):
         n = emlkit.make_node(rule_name, element, kids, attributes=dict(assignment))
         # insertion order as given
         errs = None if mode == "failfast" else []
+        prefilled = mode == "collecting" and len(assignment) % 2 == 1
+        if prefilled:
+            errs.append(_EARLIER)  # a list that already holds an entry from an earlier validation
         try:
             emlkit.validate_as(rule_name, n, errs)
+            if prefilled:
+                errs = errs[1:] if errs and errs[0] is _EARLIER else ["earlier-entry-lost"]
             if mode == "failfast":
                 res.append(("ok", None))
             else:
